@@ -210,6 +210,11 @@ pub fn alphabet<K: KeyT, V: ValT>(n: usize, nk: u8, nv: u8, which: Alpha) -> Vec
             a.push(MapOp::Drain { take: 1, forget: true });
             a.push(MapOp::Clear);
             a.push(MapOp::CheckedInsert { k: nk - 1, t: t1, v: nv - 1 });
+            // lookups inside histories: state an implementation might keep *besides* the slots (a cached
+            // index, a hint) is set by lookups and must survive the mutations that follow them
+            a.push(MapOp::Get { k: 0, f: Form::Key });
+            a.push(MapOp::Get { k: nk - 1, f: *forms.last().unwrap() });
+            a.push(MapOp::GetMutWrite { k: 1 % nk, f: Form::Key, v: nv - 1 });
         }
         Alpha::Full => {
             for k in 0..nk {
